@@ -184,9 +184,29 @@ def gen_case(rng):
         parts.append(spec)
     order = list(range(k))
     rng.shuffle(order)
-    return dict(kind=kind, mixed=mixed, parts=parts, order=order, via_open=rng.random() < 0.6,
-                keep=[rng.random() < 0.65 for _ in range(sum(p['T'] for p in parts))],
-                hseed=rng.randrange(1 << 30))
+    gen = dict(kind=kind, mixed=mixed, parts=parts, order=order, via_open=rng.random() < 0.6,
+               keep=[rng.random() < 0.65 for _ in range(sum(p['T'] for p in parts))],
+               hseed=rng.randrange(1 << 30))
+    # metadata of the parts (a generator of its own: the cases above stay what they were): observer / description /
+    # experiment_id / further obs_params, some missing from some parts, list values; the reference antenna a part is
+    # opened with when the concatenation is built from data set objects
+    mrng = random.Random(gen['hseed'] ^ 0x5EED)
+    for spec in parts:
+        if mrng.random() < 0.65:
+            extra = {}
+            if mrng.random() < 0.6:
+                extra['sb_id_code'] = mrng.choice(['S', 'S2'])
+            if mrng.random() < 0.5:
+                extra['notes'] = mrng.choice(['x', ['a', 'b'], ['a'], 3])
+            if mrng.random() < 0.4:
+                extra['zeta'] = mrng.choice(['', 'z'])
+            spec['meta'] = dict(observer=mrng.choice(['verif', 'alice', '']), description=mrng.choice(['synthetic', 'other run']),
+                                experiment_id=mrng.choice(['', '2026-1', '2026-2']), extra=extra,
+                                drop=[x for x in ('proposal_id', 'sb_id_code') if mrng.random() < 0.3],
+                                reverse=mrng.random() < 0.3)
+        if mrng.random() < 0.4:
+            spec['ref_ant'] = mrng.choice(spec['ants'])
+    return gen
 
 
 # ---------------------------------------------------------------------------------------------------------------
@@ -1347,6 +1367,10 @@ def run_case(ctx, cseed, gen=None, stages=('open', 'data', 'select', 'scans', 'o
                           sample=dict(fmt=cs.fmt, kind=gen['kind'], parts=[p['T'] for p in gen['parts']], order=order,
                                       catalogue=[t.name for t in c.catalogue.targets], scans=out[2][12]))
             sorted_idx = [i for s in out[2][1] for i in range(len(parts)) if starts.index(infos[i]['start']) == s]
+            if 'open' in stages:
+                with warnings.catch_warnings():
+                    warnings.simplefilter('ignore')
+                    stage_meta(cs, c, [infos[i]['start'] for i in order], 'via=' + ('open' if how == 'katdal.open' else 'objects'))
             drng = random.Random(gen['hseed'] + 1)
             keep0 = [int(x) for x in c._time_keep]
             segs = [int(x) for x in c._segments]
@@ -1389,6 +1413,9 @@ def expand_index(w):
 def summary(c, ids, names):
     """Everything the property constrains about an opened concatenation, canonical (for the input-order comparison)."""
     out = dict(ts=np.asarray(c.sensor.timestamps[:]).tolist(), shape=[int(x) for x in c.shape],
+               meta=repr([c.name, c.version, c.observer, c.description, c.experiment_id, list(c.obs_params.items()),
+                          list(c.receivers.items()), float(c.start_time.secs), float(c.end_time.secs),
+                          [d.name for d in c.datasets]]),
                cat=[t.description for t in c.catalogue.targets], subs=[sub_key(s) for s in c.subarrays],
                spws=[spw_key(s) for s in c.spectral_windows], dumps=[int(x) for x in c.dumps])
     for n in OBS:
@@ -1407,6 +1434,82 @@ def summary(c, ids, names):
     return out
 
 
+META_JOINS = [('name', ','), ('url', ' | '), ('version', ','), ('observer', ','), ('description', ' | '), ('experiment_id', ',')]
+
+
+def _same(a, b):
+    """Python's == as itertools.groupby / unique_in_order apply it (anything that cannot be compared is different)"""
+    try:
+        return type(a) is type(b) and bool(a == b)
+    except Exception:      # noqa: BLE001
+        return False
+
+
+def stage_meta(cs, c, input_starts, tag, objs=None):
+    """The metadata of the concatenation c against Model/ConcatMeta.v (wire_195).  The attributes of the parts are read
+    from c.datasets (the constructor does not touch them) and handed to the model in INPUT order."""
+    ctx = cs.ctx
+    table = ['']
+
+    def vid_(v):
+        for i, t in enumerate(table):
+            if _same(t, v):
+                return i
+        table.append(v)
+        return len(table) - 1
+    by_start = {float(d.start_time.secs): d for d in c.datasets}
+    try:
+        objs = objs if objs is not None else [by_start[float(st)] for st in input_starts]
+        if sorted(id(d) for d in objs) != sorted(id(d) for d in c.datasets):
+            raise KeyError('objects')
+    except KeyError:
+        cs.disagree('stage=meta;what=datasets_lost;%s' % tag, sorted(by_start), list(input_starts),
+                    'self.datasets are not the data sets that were handed in', kind='tie')
+        return
+    times = sorted({float(d.start_time.secs) for d in objs} | {float(d.end_time.secs) for d in objs})
+    wire = []
+    for d in objs:
+        wire.append([times.index(float(d.start_time.secs)), times.index(float(d.end_time.secs)), vid_(d.name), vid_(d.url),
+                     vid_(d.version), vid_(d.observer), vid_(d.description), vid_(d.experiment_id),
+                     [[vid_(k), vid_(v)] for k, v in d.obs_params.items()], [[vid_(k), vid_(v)] for k, v in d.receivers.items()],
+                     vid_(d.ref_ant), vid_(float(d.time_offset))])
+    out = ctx.model([[195, wire]])[0]
+    if not out:
+        cs.disagree('stage=meta;what=model_refuses;%s' % tag, 'opened', out, 'the metadata model refuses data sets that were concatenated', kind='tie')
+        return
+    ctx.traces_validated += 1
+    ctx.count('meta_compared')
+    ctx.count('meta_distinct_ref_ants=%d' % len({d.ref_ant for d in objs}))
+
+    def bad(what, impl, model):
+        cs.disagree('stage=meta;what=%s;%s' % (what, tag), impl, model,
+                    'metadata of the concatenation differs from the model of the merge in ConcatenatedDataSet.__init__', kind='tie')
+    for (field, sep), ids_ in zip(META_JOINS, out[:6]):
+        exp = sep.join(str(table[i]) for i in ids_)
+        if getattr(c, field) != exp:
+            bad(field, getattr(c, field), exp)
+    for attr, mdict in (('obs_params', out[6]), ('receivers', out[7])):
+        got = list(getattr(c, attr).items())
+        exp = [(table[k], table[mv[1]] if mv[0] == 0 else [table[x] for x in mv[1]]) for k, mv in mdict]
+        ok = len(got) == len(exp)
+        for (gk, gv), (ek, ev), (_, mv) in zip(got, exp, mdict):
+            if not ok:
+                break
+            if mv[0] == 0:
+                ok = gk == ek and _same(gv, ev)
+            else:
+                ok = gk == ek and isinstance(gv, list) and len(gv) == len(ev) and all(_same(a, b) for a, b in zip(gv, ev))
+                ctx.count('meta_%s_differ_between_parts' % attr)
+        if not ok:
+            bad(attr, repr(got), repr(exp))
+    if float(c.start_time.secs) != times[out[8]] or float(c.end_time.secs) != times[out[9]]:
+        bad('start_end', [float(c.start_time.secs), float(c.end_time.secs)], [times[out[8]], times[out[9]]])
+    if c.ref_ant != table[out[10]] or float(c.time_offset) != table[out[11]]:
+        bad('ref_ant', [c.ref_ant, float(c.time_offset)], [table[out[10]], table[out[11]]])
+    if [float(d.start_time.secs) for d in c.datasets] != [times[i] for i in out[12]]:
+        bad('order', [float(d.start_time.secs) for d in c.datasets], [times[i] for i in out[12]])
+
+
 def stage_order(cs, parts, c, names, order, rng):
     """Another input order of the same parts gives the same data set - also (every second time) when the parts carry a
     TIME selection of their own when they are handed to ConcatenatedDataSet: the constructor gives every part a slice
@@ -1420,7 +1523,7 @@ def stage_order(cs, parts, c, names, order, rng):
     with warnings.catch_warnings():
         warnings.simplefilter('ignore')
         try:
-            fresh = [parts[i].fresh() for i in other]
+            fresh = [parts[i].fresh(parts[i].spec.get('ref_ant', '')) for i in other]
             if rng.random() < 0.5:
                 for d in fresh:
                     how = rng.choice(['none', 'scan0', 'dump0', 'compscan_last', 'target0', 'state'])
@@ -1453,6 +1556,9 @@ def stage_order(cs, parts, c, names, order, rng):
                     (' or on the time selection the parts carried when they were concatenated' if pre else ''),
                     spec={k: b[k] if not isinstance(b[k], tuple) else b[k][0] for k in bad[:4]}, order2=other, preselect=done)
     cs.ctx.count('order_permutations_compared')
+    with warnings.catch_warnings():
+        warnings.simplefilter('ignore')
+        stage_meta(cs, c2, None, 'via=objects', objs=fresh)
     if pre:
         cs.ctx.count('preselected_parts_compared')
 
